@@ -416,6 +416,19 @@ def e_invalid():
     yield st([dw(['Clone'])], [Field(0, 'T', [opt(MList('Zeroize', [MPathM('fqs')]))])])
     yield st([dw(['Clone'])], [Field(0, 'T', [opt('foo')])])
     yield en([dw(['Clone'])], [X([opt('foo')]), Y()])
+    # nothing a plain derive could not do (`Error::use_case`), per trait, with the escapes (skip, incomparable, fqs, crate, default)
+    for t in ['Clone', 'Copy', 'Debug', 'Default', 'Eq', 'Hash', 'Ord', 'PartialEq', 'PartialOrd', 'Zeroize', 'ZeroizeOnDrop']:
+        yield st([dw([t], gen_T())])
+        yield en([dw([t], gen_T())], [X(), Y()])
+        yield en([dw([t], gen_T())], [X(), Variant(I('W'), 'tuple', []), Variant(I('V'), 'named', [])])
+        yield en([dw([t], gen_T())], [X(None, [Field(0, 'T', [opt('skip')])]), Y()])
+        yield en([dw([t], gen_T())], [X([opt('incomparable')]), Y()])
+        yield en([dw([t], gen_T())], [X([opt('default')]), Y()])
+        yield en([dw([t], gen_T())], [X(None, [Field(0, 'T', [opt(MList('Zeroize', [MPathM('fqs')]))])]), Y()])
+        yield en([dw([t, 'Zeroize'], gen_T())], [X(None, [Field(0, 'T', [opt(MList('Zeroize', [MPathM('fqs')]))])]), Y()])
+        yield en([dw([MList(t, [MNameValue('crate', 'path', P('krate::zeroize'))])], gen_T())], [X(), Y()])
+        yield en([dw([t], [Gen('param', 'T', I('T')), Gen('param', 'T', I('T'))])], [X(), Y()])
+        yield en([dw([t], [Gen('custom', 'T: Clone')])], [X(), Y()])
     # empty attributes, empty items, no traits
     yield st([Attr('dw', Body([]))])
     yield st([dw(['Clone']), Attr('dw', Body([]))])
